@@ -142,6 +142,9 @@ func (p *Program) mwCallees(c Call) []*ssa.Function {
 		return nil
 	}
 	if c.Common.IsInvoke() {
+		if narrowed, ok := p.mwImplsOfReceiver(c.Common); ok {
+			return narrowed
+		}
 		return p.mwImpls(c.Common)
 	}
 	if g := staticCallee(c.Common); g != nil {
@@ -151,6 +154,247 @@ func (p *Program) mwCallees(c Call) []*ssa.Function {
 		return nil
 	}
 	return p.mwDynamicTargets(c.Common)
+}
+
+// mwImplsOfReceiver: when every value the receiver of an interface invoke can hold is known to be a
+// concrete value boxed in this function (`I(x)`, an element of a local slice literal of boxed values
+// that is only read, or a merge of those), the invoke dispatches to the methods of those concrete
+// types only. ok=false: the receiver is something else (field, parameter, call result, ...) and every
+// implementation has to be assumed. Methods without a body in the workspace are left out, as in
+// mwImpls.
+func (p *Program) mwImplsOfReceiver(cc *ssa.CallCommon) ([]*ssa.Function, bool) {
+	ts, ok := mwBoxedTypes(cc.Value, 0, map[ssa.Value]bool{})
+	if !ok || len(ts) == 0 {
+		return nil, false
+	}
+	return p.mwMethodsOf(ts, cc)
+}
+
+// mwMethodsOf: the declared methods (with a body) the invoke cc enters for receivers of the concrete
+// types ts. ok=false when one of them cannot be resolved.
+func (p *Program) mwMethodsOf(ts []types.Type, cc *ssa.CallCommon) ([]*ssa.Function, bool) {
+	var out []*ssa.Function
+	seen := map[*ssa.Function]bool{}
+	for _, t := range ts {
+		if _, isIface := t.Underlying().(*types.Interface); isIface {
+			return nil, false
+		}
+		sel := p.SSA.MethodSets.MethodSet(t).Lookup(cc.Method.Pkg(), cc.Method.Name())
+		if sel == nil {
+			return nil, false
+		}
+		fn := p.SSA.MethodValue(sel)
+		if fn == nil {
+			return nil, false
+		}
+		for _, g := range mwUnwrap(fn) {
+			if g.Blocks != nil && !seen[g] {
+				seen[g] = true
+				out = append(out, g)
+			}
+		}
+	}
+	sort.Slice(out, func(i, j int) bool { return out[i].String() < out[j].String() })
+	return out, true
+}
+
+// mwBoxedTypes: the dynamic types interface value v can have, when all of them can be told.
+func mwBoxedTypes(v ssa.Value, depth int, seen map[ssa.Value]bool) ([]types.Type, bool) {
+	if depth > 6 || v == nil {
+		return nil, false
+	}
+	if seen[v] {
+		return nil, true
+	}
+	seen[v] = true
+	switch x := v.(type) {
+	case *ssa.MakeInterface:
+		return []types.Type{x.X.Type()}, true
+	case *ssa.ChangeInterface:
+		return mwBoxedTypes(x.X, depth+1, seen)
+	case *ssa.Phi:
+		var out []types.Type
+		for _, e := range x.Edges {
+			ts, ok := mwBoxedTypes(e, depth+1, seen)
+			if !ok {
+				return nil, false
+			}
+			out = append(out, ts...)
+		}
+		return out, true
+	case *ssa.UnOp:
+		if x.Op != token.MUL {
+			return nil, false
+		}
+		ia, isIA := x.X.(*ssa.IndexAddr)
+		if !isIA {
+			return nil, false
+		}
+		sl, isSl := ia.X.(*ssa.Slice)
+		if !isSl || !mwSliceLiteralOnlyRead(sl) {
+			return nil, false
+		}
+		elems, ok := sliceElems(sl)
+		if !ok || len(elems) == 0 {
+			return nil, false
+		}
+		var out []types.Type
+		for _, e := range elems {
+			ts, ok := mwBoxedTypes(e, depth+1, seen)
+			if !ok {
+				return nil, false
+			}
+			out = append(out, ts...)
+		}
+		return out, true
+	}
+	return nil, false
+}
+
+// mwSliceLiteralOnlyRead: sl is `(new [N]T)[:]` of a literal whose backing array is written only by
+// the literal's own constant-index stores and whose slice value is only measured and read element by
+// element — nothing else can put a value into it.
+func mwSliceLiteralOnlyRead(sl *ssa.Slice) bool {
+	a, isA := sl.X.(*ssa.Alloc)
+	if !isA || sl.Low != nil || sl.High != nil || sl.Max != nil {
+		return false
+	}
+	arr, isArr := a.Type().Underlying().(*types.Pointer).Elem().Underlying().(*types.Array)
+	if !isArr {
+		return false
+	}
+	stored := map[int64]int{}
+	for _, r := range referrersOf(a) {
+		switch y := r.(type) {
+		case *ssa.DebugRef:
+		case *ssa.Slice:
+			if y != sl {
+				return false
+			}
+		case *ssa.IndexAddr:
+			idx, isConst := constInt(y.Index)
+			if !isConst {
+				return false
+			}
+			for _, rr := range referrersOf(y) {
+				st, isSt := rr.(*ssa.Store)
+				if !isSt || st.Addr != ssa.Value(y) || st.Block() != a.Block() {
+					return false
+				}
+				stored[idx]++
+			}
+		default:
+			return false
+		}
+	}
+	// every element initialised exactly once (no element left nil, none overwritten)
+	if int64(len(stored)) != arr.Len() {
+		return false
+	}
+	for _, n := range stored {
+		if n != 1 {
+			return false
+		}
+	}
+	return mwSliceValueOnlyRead(sl, 0, map[ssa.Value]bool{})
+}
+
+// mwSliceValueOnlyRead: the slice value v (and every merge it flows into) is only measured and read
+// element by element: it is not handed to a call, stored, re-sliced, appended to or written through.
+func mwSliceValueOnlyRead(v ssa.Value, depth int, seen map[ssa.Value]bool) bool {
+	if seen[v] {
+		return true
+	}
+	seen[v] = true
+	if depth > 4 {
+		return false
+	}
+	for _, r := range referrersOf(v) {
+		switch y := r.(type) {
+		case *ssa.DebugRef:
+		case *ssa.Phi:
+			if !mwSliceValueOnlyRead(y, depth+1, seen) {
+				return false
+			}
+		case *ssa.IndexAddr:
+			for _, rr := range referrersOf(y) {
+				switch z := rr.(type) {
+				case *ssa.DebugRef:
+				case *ssa.UnOp:
+					if z.Op != token.MUL {
+						return false
+					}
+				default:
+					return false
+				}
+			}
+		case *ssa.Call:
+			if b, isB := y.Call.Value.(*ssa.Builtin); !isB || (b.Name() != "len" && b.Name() != "cap") {
+				return false
+			}
+		default:
+			return false
+		}
+	}
+	return true
+}
+
+// mwInvokeAlt is one of the lists the receiver of an interface invoke can have been taken from.
+type mwInvokeAlt struct {
+	From    *ssa.BasicBlock // the list is selected on the edge From -> To
+	To      *ssa.BasicBlock
+	List    ssa.Value
+	Callees []*ssa.Function // what the invoke can enter when the receiver is an element of List
+}
+
+// mwInvokeAlternatives: the receiver of invoke c is an element of a list that is a merge (phi) of
+// several lists (`list := all; if cond { list = []I{only} }; for _, r := range list { r.M() }`).
+// Returns per incoming list the callees the invoke can enter: the methods of the boxed element types
+// for a local literal that is only read, every workspace implementation for anything else. The caller
+// judges each alternative under what is known on its edge. ok=false: not this shape.
+func (p *Program) mwInvokeAlternatives(c Call) (alts []mwInvokeAlt, ok bool) {
+	if !c.Common.IsInvoke() {
+		return nil, false
+	}
+	ld, isLd := c.Common.Value.(*ssa.UnOp)
+	if !isLd || ld.Op != token.MUL {
+		return nil, false
+	}
+	ia, isIA := ld.X.(*ssa.IndexAddr)
+	if !isIA {
+		return nil, false
+	}
+	ph, isPhi := ia.X.(*ssa.Phi)
+	if !isPhi || len(ph.Edges) != len(ph.Block().Preds) {
+		return nil, false
+	}
+	if _, isSlice := ph.Type().Underlying().(*types.Slice); !isSlice {
+		return nil, false
+	}
+	for i, e := range ph.Edges {
+		alt := mwInvokeAlt{From: ph.Block().Preds[i], To: ph.Block(), List: e, Callees: p.mwImpls(c.Common)}
+		if sl, isSl := e.(*ssa.Slice); isSl && mwSliceLiteralOnlyRead(sl) {
+			if elems, ok := sliceElems(sl); ok && len(elems) > 0 {
+				var ts []types.Type
+				known := true
+				for _, el := range elems {
+					t, ok := mwBoxedTypes(el, 0, map[ssa.Value]bool{})
+					if !ok || len(t) == 0 {
+						known = false
+						break
+					}
+					ts = append(ts, t...)
+				}
+				if known {
+					if fns, ok := p.mwMethodsOf(ts, c.Common); ok {
+						alt.Callees = fns
+					}
+				}
+			}
+		}
+		alts = append(alts, alt)
+	}
+	return alts, true
 }
 
 // mwIsDryRun: the writer call carries client.DryRunAll (nothing is persisted).
